@@ -271,7 +271,15 @@ func (o *oidcHandler) redirectToIDP(ctx context.Context, log telemetry.Logger,
 		"code_challenge":        []string{oauth2.S256ChallengeFromVerifier(codeVerifier)},
 		"code_challenge_method": []string{"S256"},
 	}
-	redirectURL := o.config.GetAuthorizationUri() + "?" + query.Encode()
+	// The authorization endpoint may already carry a query of its own (RFC 6749 3.1), which must be retained.
+	redirectURL := o.config.GetAuthorizationUri()
+	switch {
+	case !strings.Contains(redirectURL, "?"):
+		redirectURL += "?"
+	case !strings.HasSuffix(redirectURL, "?") && !strings.HasSuffix(redirectURL, "&"):
+		redirectURL += "&"
+	}
+	redirectURL += query.Encode()
 
 	// Generate denied response with redirect headers
 	deny := newDenyResponse()
